@@ -67,7 +67,15 @@ def equiv(cx, a, b, label):
 def h_matmul(cx, n, nf, lays, cplx=False, numbers=False):
     import pyerrors as pe
     lib.sym_env(cx, *MODS)
-    mats = [mk_matrix(cx, 'ABC'[f], n, lays[f:] + lays[:f], cplx, numbers=((0, n - 1),) if (numbers and f == 1) else ()) for f in range(nf)]
+    # cplx: bool (all factors) or one letter per factor: r real observables, c complex observables, f plain float matrix, z plain complex matrix
+    kinds = cplx if isinstance(cplx, str) else ('c' if cplx else 'r') * nf
+    mats = []
+    for f in range(nf):
+        if kinds[f] in 'fz':
+            P = np.array([[1.5 + i - 0.5 * j + f for j in range(n)] for i in range(n)])
+            mats.append(P if kinds[f] == 'f' else P + 1j * np.array([[0.5 * i + 0.25 * j - 1.0 for j in range(n)] for i in range(n)]))
+        else:
+            mats.append(mk_matrix(cx, 'ABC'[f], n, lays[f:] + lays[:f], kinds[f] == 'c', numbers=((0, n - 1),) if (numbers and f == 1) else ()))
     R = pe.linalg.matmul(*mats)
     E = explicit_product(mats)
     cx.expect(R.shape == E.shape, 'shape')
@@ -342,6 +350,11 @@ def jobs(tier, seed):
     add('matmul', n=1, nf=2, lays=[E, Ei], cplx=True)
     add('matmul', n=2, nf=2, lays=[E, F_], cplx=True)
     add('matmul', n=2, nf=3, lays=[E], cplx=True)
+    # real, complex and plain factors in every neighbouring order
+    for kinds in ('rc', 'cr', 'fc', 'cf', 'cz'):      # a plain complex factor next to real observables only is outside the statement (raises AttributeError)
+        add('matmul', n=2, nf=2, lays=[E, F_], cplx=kinds)
+    for kinds in ('rcr', 'crc', 'cfc', 'rrc'):
+        add('matmul', n=2, nf=3, lays=[E], cplx=kinds)
     add('jack_matmul', n=1, nf=2, cfg=[1, 2, 3, 4, 5])
     add('jack_matmul', n=2, nf=2, cfg=[1, 2, 3, 4, 5])
     add('jack_matmul', n=2, nf=2, cfg=[2, 4, 6, 8, 10, 12])
